@@ -51,6 +51,13 @@ def run(ctx: Ctx) -> None:
     with ctx.as_rule("R-C01-TRANSFER"):
         gate(ctx)  # dead-lettering on delivery happens only for NORMAL consumers: a nack issued by a DELAYED / DEAD reader has no dead-letter target and destroys the message
     rabbit_rules(ctx)
+    from .C05 import compare
+
+    with ctx.as_rule("R-C01-TRANSFER"):
+        compare(ctx, "R-C01-TRANSFER")  # the delayed -> waiting promotion moves exactly the entries it removes (one clock reading, selection used for both)
+    from .brokers import rabbit_consume_keeps_fetched
+
+    rabbit_consume_keeps_fetched(ctx, "R-C01-TRANSFER")
     own_rules(ctx)
     terminal_callers_rule(ctx, "R-OWN")
 
